@@ -326,6 +326,50 @@ def cache_effects(repo):
     return out, {k: v for k, v in module_state.items() if v}
 
 
+def unknown_decorators(repo):
+    """decorated functions of the library whose decorator is not one the model understands (functools.lru_cache with its extracted key, property / setter,
+    dataclass, staticmethod / classmethod): a home-made caching or wrapping decorator puts the function outside the memo model"""
+    import glob
+    out = []
+    for path in sorted(glob.glob(os.path.join(repo, 'src/DHLLDV/*.py')) + glob.glob(os.path.join(repo, 'src/Wilson/*.py'))):
+        t = ast.parse(open(path).read())
+        mod = os.path.splitext(os.path.basename(path))[0]
+        for fn in [n for n in ast.walk(t) if isinstance(n, (ast.FunctionDef, ast.AsyncFunctionDef, ast.ClassDef))]:
+            for d in fn.decorator_list:
+                txt = ast.unparse(d.func if isinstance(d, ast.Call) else d)
+                if txt in ('functools.lru_cache', 'lru_cache', 'property', 'dataclass', 'dataclasses.dataclass', 'staticmethod', 'classmethod') or txt.endswith('.setter'):
+                    continue
+                out.append(f'{mod}.{fn.name}@{txt}')
+    return sorted(set(out))
+
+
+def module_state_writers(repo):
+    """functions of the library (src/DHLLDV, src/Wilson) that rebind module-level names (`global` / `nonlocal` statements) or assign an attribute of an imported
+    module (DHLLDV_framework.use_sf = ...): a function that does is not a function of its arguments and the two switches alone"""
+    import glob
+    out = []
+    for path in sorted(glob.glob(os.path.join(repo, 'src/DHLLDV/*.py')) + glob.glob(os.path.join(repo, 'src/Wilson/*.py'))):
+        t = ast.parse(open(path).read())
+        imported = set()
+        for n in ast.walk(t):
+            if isinstance(n, ast.Import):
+                imported |= {(a.asname or a.name).split('.')[0] for a in n.names}
+            elif isinstance(n, ast.ImportFrom):
+                imported |= {(a.asname or a.name) for a in n.names}
+        mod = os.path.splitext(os.path.basename(path))[0]
+        for fn in [n for n in ast.walk(t) if isinstance(n, (ast.FunctionDef, ast.AsyncFunctionDef))]:
+            for x in ast.walk(fn):
+                hit = isinstance(x, (ast.Global, ast.Nonlocal))
+                if isinstance(x, (ast.Assign, ast.AugAssign, ast.AnnAssign)):
+                    for tg in (x.targets if isinstance(x, ast.Assign) else [x.target]):
+                        if isinstance(tg, ast.Attribute) and isinstance(tg.value, ast.Name) and tg.value.id in imported and tg.value.id != 'self':
+                            hit = True
+                if hit:
+                    out.append(f'{mod}.{fn.name}')
+                    break
+    return sorted(set(out))
+
+
 def excel_requireds(repo):
     """the `excel_requireds` literal of load_pump_excel.py and the exception classes the validator converts"""
     src = open(os.path.join(repo, 'DHLLDV_viewer/load_pump_excel.py')).read()
@@ -471,6 +515,8 @@ def main(repo, outdir):
                             f'{lean_str_list(c["uncovered_reads"])}, {"true" if c["hands_out_cached_container"] else "false"})' for c in caches))
     lines.append(']')
     lines.append(f'def hiddenModuleState : List String := {lean_str_list([m + "." + n for m, ns in sorted(module_state.items()) for n in ns])}')
+    lines.append(f'def moduleStateWriters : List String := {lean_str_list(module_state_writers(repo))}')
+    lines.append(f'def unknownDecorators : List String := {lean_str_list(unknown_decorators(repo))}')
     lines.append('')
     req, caught, facts = excel_requireds(repo)
     lines.append('/-- excel_requireds: (sheet type, required, scalar fields (name, numeric?), tables (name, columns as lists of substrings)) -/')
